@@ -129,7 +129,7 @@ def model_check(pid, rep, thorough):
              ("Data", "MwStep", "HandlerComplete", "TimerFire", "PeerDisconnect", "ConnectionLost")]
     if never:
         raise tlc.TLCError("vacuity: actions never taken: %s" % never)
-    rep.set("model_constants", "14 stream shapes x 9 chains x 29 handler behaviours x upload on/off; MaxReq=1024; "
+    rep.set("model_constants", "16 stream shapes (two of them with every byte offset as a cut point: all 2^(n-1) segmentations) x 9 chains x 29 handler behaviours x upload on/off; MaxReq=1024; "
             "all segmentations at the listed cut points; all orders of Data/MwStep/HandlerComplete/TimerFire/"
             "PeerDisconnect/ConnectionLost")
     selftests = []
